@@ -111,13 +111,23 @@ class RawPayloadDecoder(AbstractSimplePayloadDecoder):
 
             return
 
+        asn1Object = noValue
+
         while True:
             for value in decodeFun(
                     substrate, asn1Spec, tagSet, length,
                     allowEoo=True, **options):
 
                 if value is eoo.endOfOctets:
+                    if asn1Object is not noValue:
+                        # the caller takes the last item: not an underrun
+                        # that was reported after the value
+                        yield asn1Object
+
                     return
+
+                if not isinstance(value, SubstrateUnderrunError):
+                    asn1Object = value
 
                 yield value
 
